@@ -1016,6 +1016,7 @@ def gen_history(rng, case, profile="mixed", nops=None):
     boundary = profile in ("mixed", "extreme")
     pool = [gen_meas(rng, case, boundary=boundary) for _ in range(rng.choice([1, 2, 3, 5]))] \
         if profile in ("percell", "ties", "collide", "cma", "gap", "tminedge") else \
+        [gen_meas(rng, case, boundary=boundary) for _ in range(rng.choice([4, 6, 9]))] if profile == "xmag" else \
         [gen_meas(rng, case, boundary=boundary) for _ in range(rng.choice([3, 6, 12]))]
 
     def objective():
@@ -1037,6 +1038,13 @@ def gen_history(rng, case, profile="mixed", nops=None):
             if r < 0.6:
                 return q(fr(case["tmin"]) + F(rng.choice([-1, 1]), 2**rng.choice([10, 26, 30, 55])))
             return dyadic(rng, -2, 4, 8)
+        if profile == "xmag":
+            # a few huge objectives among ordinary ones in the same batch (other cells): a cell's threshold must not
+            # feel what is summed for another cell
+            if rng.random() < 0.2:
+                big = F(2)**(27 if case["dtype"] == "f32" else 57)
+                return q(big * rng.choice([1, 3, 5]))
+            return dyadic(rng, -2, 14, 8)
         if profile == "gap":
             # near-equal, distinct, exactly representable objectives (the threshold is far below them)
             base = rng.choice([1, 1, 2, 100])
@@ -1088,6 +1096,9 @@ def gen_case(rng, profile="mixed", kinds=("grid", "cvt", "sb"), cma=False, dtype
     if cma and case["kind"] != "sb":
         case["lr"] = q(rng.choice([F(0), F(1, 4), F(1, 2), F(3, 4), F(1), F(1, 10), F(3, 10), F(9, 10), F(1, 100)]))
         case["tmin"] = q(rng.choice([F(0), F(-4), F(2), F(-1, 2)]))
+        if profile == "xmag":
+            case["lr"] = q(rng.choice([F(1), F(1), F(1, 2), F(1, 4)]))
+            case["tmin"] = q(rng.choice([F(0), F(-4)]))
         if profile == "tminedge":
             case["tmin"] = q(rng.choice([F(1, 10), F(3, 10), F(-7, 10), F(1, 3), F(-1, 3)]))
             case["lr"] = q(rng.choice([F(0), F(1, 2), F(1), F(1, 10)]))
